@@ -11,7 +11,7 @@ let cc inp impl =
     let framing = if fr = "m" then FMbap else FRtu in
     let stream = List.concat (chunks_of chunks) in
     let o = op_of_tokens optoks in
-    let r = client_call framing cfg N0 o (if send = "c" then Closed else Stall) stream in
+    let r = client_call framing cfg N0 o (send_of send) stream in
     let consumed = List.length stream - List.length r.cr_rest in
     let rs = result_str r.cr_res in
     let m = Printf.sprintf "%s %s %d" rs (csv_of_list hex_of_bytes r.cr_writes) consumed in
@@ -31,9 +31,48 @@ let srv inp impl =
   | [send; chunks; script] ->
     let stream = List.concat (chunks_of chunks) in
     let sc = if script = "-" then [||] else Array.of_list (String.split_on_char ',' script) in
-    let evs = server_run (script_handler sc) 0 (if send = "c" then Closed else Stall) stream in
+    let evs = server_run (script_handler sc) 0 (send_of send) stream in
     let m = String.concat ";" (List.map event_str evs) in
     (m, if m = impl then "1" else "0")
   | _ -> failwith "srv: bad input"
 
-let () = Registry.register "cc" cc; Registry.register "srv" srv
+(* client history on one client / one connection: unread bytes carry over *)
+let ch inp impl =
+  match inp with
+  | fr :: unit :: e :: w :: rest ->
+    let framing = if fr = "m" then FMbap else FRtu in
+    let cfg = ref { c_unit = n_of_hex unit; c_endian = endian_of e; c_word = word_of w } in
+    let txn = ref N0 and left = ref [] and closed = ref Stall in
+    let outs = ref [] and pouts = ref [] in
+    let step = ref [] in
+    let flush () =
+      (match List.rev !step with
+       | "call" :: send :: chunks :: optoks ->
+         let stream = !left @ List.concat (chunks_of chunks) in
+         (match send_of send with Stall -> () | x -> closed := x);
+         let r = client_call framing !cfg !txn (op_of_tokens optoks) !closed stream in
+         let consumed = List.length stream - List.length r.cr_rest in
+         left := r.cr_rest; txn := r.cr_txn;
+         let rs = result_str r.cr_res in
+         let ws = csv_of_list hex_of_bytes r.cr_writes in
+         outs := Printf.sprintf "%s %s %d" rs ws consumed :: !outs;
+         pouts := (project rs ^ " " ^ ws) :: !pouts
+       | ["setunit"; u] -> cfg := { !cfg with c_unit = n_of_hex u }; outs := "ok" :: !outs; pouts := "ok" :: !pouts
+       | ["setenc"; e; w] ->
+         let ok v = v = "1" || v = "2" in
+         let o = if ok e && ok w then (cfg := { !cfg with c_endian = endian_of e; c_word = word_of w }; "ok:u")
+           else "err:params" in
+         outs := o :: !outs; pouts := o :: !pouts
+       | [] -> ()
+       | _ -> failwith "ch: bad step");
+      step := [] in
+    List.iter (fun t -> if t = ";" then flush () else step := t :: !step) rest;
+    flush ();
+    let m = String.concat ";" (List.rev !outs) in
+    (* P: per step, projected outcome and transmitted frames agree *)
+    let ip = List.map (fun s -> match String.split_on_char ' ' s with
+        | [r; w; _] -> project r ^ " " ^ w | [x] -> x | _ -> "?") (String.split_on_char ';' impl) in
+    (m, if ip = List.rev !pouts then "1" else "0")
+  | _ -> failwith "ch: bad input"
+
+let () = Registry.register "cc" cc; Registry.register "srv" srv; Registry.register "ch" ch
